@@ -1,0 +1,203 @@
+//go:build verif
+
+package val
+
+// Contracts for the govc verifier (/verif). Comments only: this file adds no declarations,
+// so building with or without the "verif" tag produces the same package.
+//
+// Syntax: see /verif/DESIGN.md section 3.5. Integers in specifications are mathematical.
+
+// ---- C17: the order on typed values ----------------------------------------------------------
+
+//@ pure sgn3(lt bool, gt bool) int = lt ? -1 : (gt ? 1 : 0)
+
+//@ pure ordered(a Value) bool = dyn(a) == String || dyn(a) == Bool || dyn(a) == Int8 || dyn(a) == UInt8 || dyn(a) == Int16 || dyn(a) == UInt16 \
+//@      || dyn(a) == Int32 || dyn(a) == UInt32 || dyn(a) == Int64 || dyn(a) == UInt64 || dyn(a) == Decimal64 || dyn(a) == Enum || dyn(a) == IdentRef
+
+//@ pure sameDyn(a Value, b Value) bool = (dyn(a) == String && dyn(b) == String) || (dyn(a) == Bool && dyn(b) == Bool) \
+//@      || (dyn(a) == Int8 && dyn(b) == Int8) || (dyn(a) == UInt8 && dyn(b) == UInt8) || (dyn(a) == Int16 && dyn(b) == Int16) || (dyn(a) == UInt16 && dyn(b) == UInt16) \
+//@      || (dyn(a) == Int32 && dyn(b) == Int32) || (dyn(a) == UInt32 && dyn(b) == UInt32) || (dyn(a) == Int64 && dyn(b) == Int64) || (dyn(a) == UInt64 && dyn(b) == UInt64) \
+//@      || (dyn(a) == Decimal64 && dyn(b) == Decimal64) || (dyn(a) == Enum && dyn(b) == Enum) || (dyn(a) == IdentRef && dyn(b) == IdentRef)
+
+// cmpv is THE order the property talks about: numeric order for every integer width, IEEE order for
+// decimal64, byte-wise order for strings and identity names, value order for enums, false < true.
+//@ pure cmpv(a Value, b Value) int = \
+//@      dyn(a) == Int8 ? sign(a.(Int8) - b.(Int8)) : \
+//@      dyn(a) == UInt8 ? sign(a.(UInt8) - b.(UInt8)) : \
+//@      dyn(a) == Int16 ? sign(a.(Int16) - b.(Int16)) : \
+//@      dyn(a) == UInt16 ? sign(a.(UInt16) - b.(UInt16)) : \
+//@      dyn(a) == Int32 ? sign(a.(Int32) - b.(Int32)) : \
+//@      dyn(a) == UInt32 ? sign(a.(UInt32) - b.(UInt32)) : \
+//@      dyn(a) == Int64 ? sign(a.(Int64) - b.(Int64)) : \
+//@      dyn(a) == UInt64 ? sign(a.(UInt64) - b.(UInt64)) : \
+//@      dyn(a) == Decimal64 ? sgn3(a.(Decimal64) < b.(Decimal64), a.(Decimal64) > b.(Decimal64)) : \
+//@      dyn(a) == Enum ? sign(a.(Enum).Id - b.(Enum).Id) : \
+//@      dyn(a) == Bool ? sgn3(!a.(Bool) && b.(Bool), a.(Bool) && !b.(Bool)) : \
+//@      dyn(a) == String ? strcmp(a.(String), b.(String)) : \
+//@      dyn(a) == IdentRef ? strcmp(a.(IdentRef).Label, b.(IdentRef).Label) : 0
+
+//@ pure notNaN(a Value) bool = dyn(a) == Decimal64 ==> !isNaN(a.(Decimal64))
+
+//@ interface Comparable.Compare(y Comparable) int
+//@   requires ordered(self) && sameDyn(self, y) && notNaN(self) && notNaN(y) && enumRange(self) && enumRange(y)
+//@   assigns nothing
+//@   ensures sign(result) == cmpv(self, y)
+
+//@ pure enumRange(a Value) bool = dyn(a) == Enum ==> (-2147483648 <= a.(Enum).Id && a.(Enum).Id <= 2147483647)
+
+//@ func (x Int8) Compare(y Comparable) int
+//@   mode bv
+//@   property C17
+//@   requires dyn(y) == Int8
+//@   assigns nothing
+//@   ensures (result < 0) == (x < y.(Int8))
+//@   ensures (result == 0) == (x == y.(Int8))
+//@   ensures (result > 0) == (x > y.(Int8))
+//@   ensures sign(result) == cmpv(x, y)
+
+//@ func (x UInt8) Compare(b Comparable) int
+//@   mode bv
+//@   property C17
+//@   requires dyn(b) == UInt8
+//@   assigns nothing
+//@   ensures (result < 0) == (x < b.(UInt8))
+//@   ensures (result == 0) == (x == b.(UInt8))
+//@   ensures (result > 0) == (x > b.(UInt8))
+//@   ensures sign(result) == cmpv(x, b)
+
+//@ func (x Int16) Compare(y Comparable) int
+//@   mode bv
+//@   property C17
+//@   requires dyn(y) == Int16
+//@   assigns nothing
+//@   ensures (result < 0) == (x < y.(Int16))
+//@   ensures (result == 0) == (x == y.(Int16))
+//@   ensures (result > 0) == (x > y.(Int16))
+//@   ensures sign(result) == cmpv(x, y)
+
+//@ func (x UInt16) Compare(b Comparable) int
+//@   mode bv
+//@   property C17
+//@   requires dyn(b) == UInt16
+//@   assigns nothing
+//@   ensures (result < 0) == (x < b.(UInt16))
+//@   ensures (result == 0) == (x == b.(UInt16))
+//@   ensures (result > 0) == (x > b.(UInt16))
+//@   ensures sign(result) == cmpv(x, b)
+
+//@ func (x Int32) Compare(y Comparable) int
+//@   mode bv
+//@   property C17
+//@   requires dyn(y) == Int32
+//@   assigns nothing
+//@   ensures (result < 0) == (x < y.(Int32))
+//@   ensures (result == 0) == (x == y.(Int32))
+//@   ensures (result > 0) == (x > y.(Int32))
+//@   ensures sign(result) == cmpv(x, y)
+
+//@ func (x UInt32) Compare(b Comparable) int
+//@   mode bv
+//@   property C17
+//@   requires dyn(b) == UInt32
+//@   assigns nothing
+//@   ensures (result < 0) == (x < b.(UInt32))
+//@   ensures (result == 0) == (x == b.(UInt32))
+//@   ensures (result > 0) == (x > b.(UInt32))
+//@   ensures sign(result) == cmpv(x, b)
+
+//@ func (x Int64) Compare(b Comparable) int
+//@   mode bv
+//@   property C17
+//@   requires dyn(b) == Int64
+//@   assigns nothing
+//@   ensures (result < 0) == (x < b.(Int64))
+//@   ensures (result == 0) == (x == b.(Int64))
+//@   ensures (result > 0) == (x > b.(Int64))
+//@   ensures sign(result) == cmpv(x, b)
+
+//@ func (x UInt64) Compare(b Comparable) int
+//@   mode bv
+//@   property C17
+//@   requires dyn(b) == UInt64
+//@   assigns nothing
+//@   ensures (result < 0) == (x < b.(UInt64))
+//@   ensures (result == 0) == (x == b.(UInt64))
+//@   ensures (result > 0) == (x > b.(UInt64))
+//@   ensures sign(result) == cmpv(x, b)
+
+//@ func (x Decimal64) Compare(b Comparable) int
+//@   mode bv
+//@   property C17
+//@   requires dyn(b) == Decimal64 && !isNaN(x) && !isNaN(b.(Decimal64))
+//@   assigns nothing
+//@   ensures (result < 0) == (x < b.(Decimal64))
+//@   ensures (result == 0) == (x == b.(Decimal64))
+//@   ensures (result > 0) == (x > b.(Decimal64))
+//@   ensures sign(result) == cmpv(x, b)
+
+//@ func (x Bool) Compare(y Comparable) int
+//@   mode bv
+//@   property C17
+//@   requires dyn(y) == Bool
+//@   assigns nothing
+//@   ensures (result < 0) == (!x && y.(Bool))
+//@   ensures (result == 0) == (x == y.(Bool))
+//@   ensures (result > 0) == (x && !y.(Bool))
+//@   ensures sign(result) == cmpv(x, y)
+
+// enum values are int32 in YANG (RFC 7950 9.6.4.2); the grammar and the compiler only produce such ids
+//@ func (x Enum) Compare(b Comparable) int
+//@   mode bv
+//@   property C17
+//@   requires dyn(b) == Enum
+//@   requires -2147483648 <= x.Id && x.Id <= 2147483647 && -2147483648 <= b.(Enum).Id && b.(Enum).Id <= 2147483647
+//@   assigns nothing
+//@   ensures (result < 0) == (x.Id < b.(Enum).Id)
+//@   ensures (result == 0) == (x.Id == b.(Enum).Id)
+//@   ensures (result > 0) == (x.Id > b.(Enum).Id)
+//@   ensures sign(result) == cmpv(x, b)
+
+//@ func (x String) Compare(b Comparable) int
+//@   mode bv
+//@   property C17
+//@   requires dyn(b) == String
+//@   assigns nothing
+//@   ensures sign(result) == strcmp(x, b.(String))
+//@   ensures sign(result) == cmpv(x, b)
+
+//@ func (x IdentRef) Compare(b Comparable) int
+//@   mode bv
+//@   property C17
+//@   requires dyn(b) == IdentRef
+//@   assigns nothing
+//@   ensures sign(result) == strcmp(x.Label, b.(IdentRef).Label)
+//@   ensures sign(result) == cmpv(x, b)
+
+//@ func (x Binary) Compare(y Comparable) int
+//@   mode bv
+//@   property C17
+//@   requires dyn(y) == Binary
+//@   assigns nothing
+//@   ensures sign(result) == strcmp(bytes(x), bytes(y.(Binary)))
+
+// ---- order laws: lemmas over the contracts (no code involved) -----------------------------------
+
+//@ lemma cmp_range(a Value, b Value): cmpv(a, b) == -1 || cmpv(a, b) == 0 || cmpv(a, b) == 1
+//@   property C17
+//@ lemma cmp_reflexive(a Value): ordered(a) && notNaN(a) ==> cmpv(a, a) == 0
+//@   property C17
+//@ lemma cmp_antisymmetric(a Value, b Value): ordered(a) && sameDyn(a, b) && notNaN(a) && notNaN(b) ==> cmpv(a, b) == -cmpv(b, a)
+//@   property C17
+//@ lemma cmp_transitive(a Value, b Value, c Value): ordered(a) && sameDyn(a, b) && sameDyn(b, c) && notNaN(a) && notNaN(b) && notNaN(c) \
+//@      && cmpv(a, b) <= 0 && cmpv(b, c) <= 0 ==> cmpv(a, c) <= 0
+//@   property C17
+//@ lemma cmp_transitive_strict(a Value, b Value, c Value): ordered(a) && sameDyn(a, b) && sameDyn(b, c) && notNaN(a) && notNaN(b) && notNaN(c) \
+//@      && cmpv(a, b) < 0 && cmpv(b, c) <= 0 ==> cmpv(a, c) < 0
+//@   property C17
+//@ lemma cmp_eq_transitive(a Value, b Value, c Value): ordered(a) && sameDyn(a, b) && sameDyn(b, c) && notNaN(a) && notNaN(b) && notNaN(c) \
+//@      && cmpv(a, b) == 0 && cmpv(b, c) == 0 ==> cmpv(a, c) == 0
+//@   property C17
+//@ lemma cmp_int_exact(a Int64, b Int64): (cmpv(a, b) < 0) == (a < b) && (cmpv(a, b) == 0) == (a == b)
+//@   property C17
+//@ lemma cmp_uint_exact(a UInt64, b UInt64): (cmpv(a, b) < 0) == (a < b) && (cmpv(a, b) == 0) == (a == b)
+//@   property C17
